@@ -92,10 +92,13 @@ def dedup(behs):
 
 
 def stratified(rng, behs, n):
-    """Round-robin over (protocol, mode, targets, deviations the model goes through)."""
+    """Round-robin over (protocol, mode, targets, routing, deviations the model goes through, where the
+    faults are injected)."""
     groups = {}
     for b in behs:
-        k = (b["cfg"]["lmtp"], b["cfg"]["defer"], b["cfg"]["nt"], tuple(b["devs"]))
+        faults = tuple(sorted({(x["tgt"], x["op"]) for x in b["hist"] if x.get("a") == "Tgt" and (
+            x.get("res") not in ("ok", "") or any(v != "ok" for v in (x.get("st") or {}).values()))}))
+        k = (b["cfg"]["lmtp"], b["cfg"]["defer"], b["cfg"]["nt"], b["cfg"]["shape"], tuple(b["devs"]), faults)
         groups.setdefault(k, []).append(b)
     for k in groups:
         rng.shuffle(groups[k])
@@ -292,11 +295,22 @@ def run(ctx, replay):
     def job_gen():     # one shortest behaviour per distinct final state of the as-is state graph
         if thorough:
             c = cfg(["ra", "rb"], [1, 2, 3], ["temp", "perm"], 2, 6, devs=open_devs, gen=True,
-                    tail="VIEW GenView\n" + GEN_TAIL)
+                    tail="VIEW GenViewPlain\n" + GEN_TAIL)
         else:
             c = cfg(["ra", "rb"], [1, 2], ["perm"], 1, 5, devs=open_devs, gen=True,
-                    tail="VIEW GenView\n" + GEN_TAIL)
+                    tail="VIEW GenViewPlain\n" + GEN_TAIL)
         return ctx.tlc("Session", None, name="gen", workers=6, timeout=2400, cfg_text=c)
+
+    CORE = ["HELO:", "MAIL:ok", "MAIL:null", "RCPT:ok", "DATA:ok", "RSET:", "DROP:"]
+
+    def job_core():    # core alphabet, one command deeper: one behaviour per (final state, set of event kinds)
+        if thorough:
+            c = cfg(["ra", "rb"], [1, 2, 3], ["perm"], 2, 7, devs=open_devs, gen=True,
+                    tail="VIEW GenView\n" + GEN_TAIL, allowed=CORE)
+        else:
+            c = cfg(["ra", "rb"], [1, 2], ["perm"], 1, 6, devs=open_devs, gen=True,
+                    tail="VIEW GenView\n" + GEN_TAIL, allowed=CORE)
+        return ctx.tlc("Session", None, name="core", workers=4, timeout=2400, cfg_text=c)
 
     def job_focus():   # the deep corner of the nested-MAIL deviation: a release that kills the server
         return ctx.tlc("Session", None, name="focus", workers=4, timeout=900,
@@ -319,6 +333,7 @@ def run(ctx, replay):
             f_gen = ex.submit(job_gen)
             f_live = ex.submit(job_live)
             f_focus = ex.submit(job_focus)
+            f_core = ex.submit(job_core)
             f_asis = {dv: ex.submit(job_asis, dv) for dv in ALL_DEVS}
             f_sim = [ex.submit(job_sim, i, *a) for i, a in enumerate(sims)]
             r = f_mc.result()
@@ -327,6 +342,7 @@ def run(ctx, replay):
             g = f_gen.result()
             gs = [f.result() for f in f_sim]
             gf = f_focus.result()
+            gc = f_core.result()
         ctx.cov["states"] = r["distinct"]
         ctx.cov["transitions"] = r["generated"]
         ctx.cov["model_depth"] = r["depth"]
@@ -347,7 +363,14 @@ def run(ctx, replay):
         ctx.cov["final_state_behaviours"] = len(ex_b)
         ctx.log("as-is state graph (open deviations on): %d states, %d distinct final states, %.1fs" % (
             g["distinct"], len(ex_b), g["wall"]))
-        behs = stratified(ctx.rng, ex_b, 30000 if thorough else 700)
+        behs = stratified(ctx.rng, ex_b, 30000 if thorough else 1000)
+        if not gc["ok"]:
+            raise vlib.Infra("core behaviour generation failed: %s %s" % (gc["invariant"], gc["error"]))
+        core_b = behaviours_from(gc)
+        ctx.cov["core_final_state_behaviours"] = len(core_b)
+        ctx.log("core alphabet, one command deeper: %d states, %d (final state, event kinds) classes, %.1fs" % (
+            gc["distinct"], len(core_b), gc["wall"]))
+        behs += stratified(ctx.rng, core_b, 40000 if thorough else 5000)
         if not gf["ok"]:
             raise vlib.Infra("focused behaviour generation failed: %s %s" % (gf["invariant"], gf["error"]))
         fb = behaviours_from(gf)
@@ -455,16 +478,20 @@ def run(ctx, replay):
     ctx.cov["deviations_taken_by_real_code"] = devs_seen
     ctx.cov["violated_predicates"] = preds
     ctx.cov["rule"] = ("behaviours = complete client scripts + fault plans of Session.tla printed by TLC "
-                       "with the deviations of the open findings enabled: one shortest behaviour per distinct final state of "
-                       "the state graph (quick: <=5 commands, stratified sample of 700; thorough: <=6 commands, stratified "
-                       "sample of 30000) "
-                       "plus -simulate with VERIF_SEED up to 12 commands, de-duplicated; non-trivial = "
+                       "with the deviations of the open findings enabled: (a) one shortest behaviour per distinct final state of "
+                       "the state graph (quick: <=5 commands, stratified sample of 1000; thorough: <=6 commands, 30000); (b) "
+                       "over the core alphabet HELO/MAIL ok,null/RCPT ok/DATA ok/RSET/drop one behaviour per distinct (final "
+                       "state, set of event kinds: commands, DATA reply classes, target calls with ok/fail) (quick: <=6 commands, "
+                       "stratified sample of 5000; thorough: <=7 commands, 40000); (c) the focused nested-MAIL corner; (d) "
+                       "-simulate with VERIF_SEED up to 12 commands; de-duplicated; stratified = round-robin over protocol x "
+                       "mode x targets x routing x deviations x fault placement; non-trivial = "
                        "a scripted failure, an invalid/odd argument, RSET/drop/pipelining or BDAT")
     for b in behs[:3]:
         ctx.cov["samples"].append({"behaviour": b, "trace": by_t.get(b["id"], [])[:60]})
     ctx.cov["exhaustive"] = False
     ctx.assumptions += [
-        "explored client alphabet: EHLO/LHLO, MAIL {ok, upper-case domain, refused by a sender check, syntax error}, "
+        "explored client alphabet: EHLO/LHLO, MAIL {ok, null sender, upper-case domain, refused by a sender check, "
+        "syntax error}, "
         "RCPT {per recipient: ok / upper-case domain; refused destination; syntax error}, DATA {ok, routing loop, "
         "oversized header, body check reject, connection cut inside the body}, BDAT/BDAT LAST, RSET, NOOP, QUIT, drop; "
         "pipelined groups; AUTH is not exercised (C14)",
